@@ -238,8 +238,9 @@ package boltz
 //@   pure
 //@   ensures result == ctxTx[self]
 //@ func (MutateContext).setTx
-//@   modifies ctxTx[self]
+//@   modifies ctxTx[self], ocCnt, ocFn, ocRecv
 //@   ensures ctxTx[self] == tx
+//@   ensures[no-transaction-no-registration] tx == nil ==> ocCnt == old(ocCnt) && ocFn == old(ocFn) && ocRecv == old(ocRecv)
 //@ func (MutateContext).runPreCommitActions
 //@   modifies *
 // A context is a system context exactly when it is the system wrapper.
